@@ -96,6 +96,12 @@ P.update({
         "1d12h), >= 24h, zero, wrong direction and inapplicable units; 8 skip sets; --compute-from-last; guessed increments. "
         "The whole output is compared line by line with {FIRST + k*INC}; an output beyond the CPU/size cap is 'endless'.",
    note=SAN + "time bounds with FIRST == LAST, compound month increments and one-argument forms are not judged. " + TB, ref="3 C15"),
+ "C16": dict(cat="exploration", tech="reference-model monitor (nearest-candidate oracle on ordinals/seconds) + oracle-free idempotence and strictness monitors over dround outputs + ASan/UBSan",
+   text="dround [-n] with weekday, day-of-month, month, quarter, ISO-week, hour/minute/second value targets and /N co-classes "
+        "(h, m, s, 1d, 1b, mo, q, y), both directions, one and two specs, on ymd/ywd/yd/ymcw dates, date-times and times, printed "
+        "natively or in another calendar; each result compared with the nearest candidate on the requested side; the tool's "
+        "output rounded again must be unchanged; -n results must differ from the input.",
+   note=SAN + "month-based targets on ymcw and business-day-of-month targets are not judged. " + TB, ref="3 C16"),
 })
 
 NOT_YET = {}
